@@ -35,9 +35,13 @@ CONSTANTS
   FixInterrupt,  \* TRUE: model the repaired commit(): an interrupted commit keeps its files (outcome unknown)
   FaultKinds,    \* subset of {"before", "after", "async"} injected when model checking
   FaultBudget,   \* number of injected storage faults when model checking
-  Grace          \* collector grace period (logical ms)
+  Grace,         \* collector grace period used when an operation does not name one (logical ms)
+  OldFiles,      \* TRUE: data files written by transactions are already older than any grace period
+                 \* (pre-built files, long-running transactions): only markers can protect them
+  MarkerTimeout  \* age after which an in-flight marker counts as abandoned (the code: 24 h)
 
 NoName == [v |-> -1, u |-> 0]
+OldTime == -100000000
 NoCutoff == -1
 UUID0 == 1
 
@@ -126,11 +130,12 @@ VARIABLES
   sidOfOp,    \* <<actor, opIndex>> -> snapshot id committed by that operation
   outcomes,   \* actor -> sequence of "ok" | "cme" | "error" | "ambiguous" | "false"
   reads,      \* reader observations: sequence of [a, from, to, files]
-  deleted     \* set of [f, by, at]: every file deletion that happened
+  deleted,    \* set of [f, by, i, at]: every file deletion that happened
+  initBody    \* the metadata version that was current initially (ghost, never changes)
 
 storageVars == <<hint, metas, metaTime, lists, mans, present, ftime, markers, mtimeM>>
 actorVars   == <<pc, opi, att, loc>>
-ghostVars   == <<commitLog, serial, tsOf, sidOfOp, outcomes, reads, deleted>>
+ghostVars   == <<commitLog, serial, tsOf, sidOfOp, outcomes, reads, deleted, initBody>>
 vars == <<storageVars, clock, lockHolder, rlock, actorVars, faults, armed, ghostVars>>
 
 Committers == {a \in Actors : Role[a] = "committer"}
@@ -169,7 +174,8 @@ FilesOfList(l) == UNION {{e.file : e \in mans[lists[l][j]]} : j \in 1..Len(lists
 EmptyLoc == [files |-> <<>>, marks |-> {}, base |-> <<>>, baseName |-> NoName, sid |-> 0, seq |-> 0,
              todo |-> <<>>, finalMans |-> <<>>, newFiles |-> {}, list |-> 0, draft |-> <<>>, ts |-> 0,
              valName |-> NoName, prevName |-> NoName, nextVer |-> 0, etagName |-> NoName, target |-> 0,
-             err |-> "none", after |-> "none", pend |-> 0, chk |-> 0, from |-> 0, body |-> <<>>, got |-> {}, rfiles |-> {}]
+             err |-> "none", after |-> "none", pend |-> 0, chk |-> 0, from |-> 0, body |-> <<>>, got |-> {}, rfiles |-> {},
+             reach |-> {}, prot |-> {}, cand |-> {}, cutoff |-> 0, mseen |-> {}]
 
 InitBody(k) ==
   [uuid |-> UUID0, cur |-> IF k = 0 THEN 0 ELSE 900 + k, lastUpd |-> k, lastSeq |-> k,
@@ -185,7 +191,7 @@ Init ==
   /\ lists = [l \in {920 + j : j \in 1..InitSnaps} |-> [i \in 1..(l - 920) |-> 940 + i]]
   /\ mans = [m \in {940 + j : j \in 1..InitSnaps} |-> {[file |-> 960 + (m - 940), status |-> "ADDED", snap |-> 900 + (m - 940), seq |-> m - 940]}]
   /\ present = {920 + j : j \in 1..InitSnaps} \cup {940 + j : j \in 1..InitSnaps} \cup {960 + j : j \in 1..InitSnaps}
-  /\ ftime = [f \in ({920 + j : j \in 1..InitSnaps} \cup {940 + j : j \in 1..InitSnaps} \cup {960 + j : j \in 1..InitSnaps}) |-> 0]
+  /\ ftime = [f \in ({920 + j : j \in 1..InitSnaps} \cup {940 + j : j \in 1..InitSnaps} \cup {960 + j : j \in 1..InitSnaps}) |-> OldTime]
   /\ markers = {}
   /\ mtimeM = <<>>
   /\ clock = InitSnaps
@@ -205,6 +211,7 @@ Init ==
   /\ outcomes = [a \in Actors |-> <<>>]
   /\ reads = <<>>
   /\ deleted = {}
+  /\ initBody = InitBody(InitSnaps)
 
 (***************************************************************************)
 (* Clock.  Now(a) is the value a clock read returns; ClockAfterRead the     *)
@@ -257,12 +264,12 @@ WriteMarkerD(a, f) ==
   /\ pc' = [pc EXCEPT ![a] = "tx_data"]
   /\ UNCHANGED <<hint, metas, metaTime, lists, mans, present, ftime, clock, lockHolder, rlock, opi, att, faults, armed, ghostVars>>
 
-WriteData(a, f) ==
+WriteData(a, f, t) ==
   /\ pc[a] = "tx_data"
   /\ f = NextAppend(a)
   /\ f \notin present
   /\ present' = present \cup {f}
-  /\ ftime' = (f :> clock) @@ ftime
+  /\ ftime' = (f :> t) @@ ftime
   /\ loc' = [loc EXCEPT ![a].files = Append(@, f)]
   /\ pc' = [pc EXCEPT ![a] = "tx_check"]
   /\ UNCHANGED <<hint, metas, metaTime, lists, mans, markers, mtimeM, clock, lockHolder, rlock, opi, att, faults, armed, ghostVars>>
@@ -342,7 +349,7 @@ WriteMarkerM(a, f) ==
   /\ UNCHANGED <<hint, metas, metaTime, lists, mans, present, ftime, clock, lockHolder, rlock, opi, att, faults, armed, ghostVars>>
 
 \* the rewritten manifest: survivors as EXISTING with their original snapshot id / sequence number
-RewriteManifest(a, newMan) ==
+RewriteManifest(a, newMan, t) ==
   /\ pc[a] = "c_rew"
   /\ newMan = loc[a].pend
   /\ newMan \notin DOMAIN mans
@@ -350,7 +357,7 @@ RewriteManifest(a, newMan) ==
          surv == {e \in mans[m] : e.file \notin DeleteFiles(a)}
      IN /\ mans' = (newMan :> {[e EXCEPT !.status = "EXISTING"] : e \in surv}) @@ mans
         /\ present' = present \cup {newMan}
-        /\ ftime' = (newMan :> clock) @@ ftime
+        /\ ftime' = (newMan :> t) @@ ftime
         /\ loc' = [loc EXCEPT ![a].todo = Tail(@), ![a].finalMans = Append(@, newMan), ![a].newFiles = @ \cup {newMan}]
         /\ pc' = [pc EXCEPT ![a] = AfterMan(a, Len(loc[a].todo))]
   /\ UNCHANGED <<hint, metas, metaTime, lists, markers, mtimeM, clock, lockHolder, rlock, opi, att, faults, armed, ghostVars>>
@@ -367,26 +374,26 @@ CheckData(a) ==
   /\ UNCHANGED <<storageVars, clock, lockHolder, rlock, opi, att, faults, armed, ghostVars>>
 
 \* marker + manifest for the appended files (ADDED, this attempt's snapshot id and sequence number)
-WriteManifest(a, newMan, sid) ==
+WriteManifest(a, newMan, sid, t) ==
   /\ pc[a] = "c_wman"
   /\ newMan = loc[a].pend
   /\ newMan \notin DOMAIN mans
   /\ loc[a].sid \in {0, sid}
   /\ mans' = (newMan :> {[file |-> AppendFiles(a)[i], status |-> "ADDED", snap |-> sid, seq |-> loc[a].seq] : i \in 1..Len(AppendFiles(a))}) @@ mans
   /\ present' = present \cup {newMan}
-  /\ ftime' = (newMan :> clock) @@ ftime
+  /\ ftime' = (newMan :> t) @@ ftime
   /\ loc' = [loc EXCEPT ![a].finalMans = Append(@, newMan), ![a].newFiles = @ \cup {newMan}, ![a].sid = sid]
   /\ pc' = [pc EXCEPT ![a] = "c_wlist_mark"]
   /\ UNCHANGED <<hint, metas, metaTime, lists, markers, mtimeM, clock, lockHolder, rlock, opi, att, faults, armed, ghostVars>>
 
-WriteList(a, newList, sid) ==
+WriteList(a, newList, sid, t) ==
   /\ pc[a] = "c_wlist"
   /\ newList = loc[a].pend
   /\ newList \notin DOMAIN lists
   /\ loc[a].sid \in {0, sid}
   /\ lists' = (newList :> loc[a].finalMans) @@ lists
   /\ present' = present \cup {newList}
-  /\ ftime' = (newList :> clock) @@ ftime
+  /\ ftime' = (newList :> t) @@ ftime
   /\ loc' = [loc EXCEPT ![a].list = newList, ![a].newFiles = @ \cup {newList}, ![a].sid = sid]
   /\ pc' = [pc EXCEPT ![a] = "c_stamp"]
   /\ UNCHANGED <<hint, metas, metaTime, mans, markers, mtimeM, clock, lockHolder, rlock, opi, att, faults, armed, ghostVars>>
@@ -509,7 +516,7 @@ FlipHint(a) ==
         ELSE /\ pc' = [pc EXCEPT ![a] = "c_unlock"]
              /\ loc' = [loc EXCEPT ![a].after = "cme"]
              /\ UNCHANGED <<hint, commitLog, serial, tsOf, sidOfOp>>
-  /\ UNCHANGED <<metas, metaTime, lists, mans, present, ftime, markers, mtimeM, clock, lockHolder, rlock, opi, att, faults, armed, outcomes, reads, deleted>>
+  /\ UNCHANGED <<metas, metaTime, lists, mans, present, ftime, markers, mtimeM, clock, lockHolder, rlock, opi, att, faults, armed, outcomes, reads, deleted, initBody>>
 
 \* release of the distributed lock, then of the handle's thread lock; where control goes afterwards
 \* was decided by whoever entered the unlock path (loc.after)
@@ -556,7 +563,7 @@ ReturnOk(a) ==
   /\ outcomes' = [outcomes EXCEPT ![a] = Append(@, "ok")]
   /\ pc' = [pc EXCEPT ![a] = "idle"]
   /\ opi' = [opi EXCEPT ![a] = @ + 1]
-  /\ UNCHANGED <<storageVars, clock, lockHolder, rlock, att, loc, faults, armed, commitLog, serial, tsOf, sidOfOp, reads, deleted>>
+  /\ UNCHANGED <<storageVars, clock, lockHolder, rlock, att, loc, faults, armed, commitLog, serial, tsOf, sidOfOp, reads, deleted, initBody>>
 
 \* _rollback(): delete the DATA files this transaction wrote, then its markers (transaction.py:648-663)
 RollbackDeleteData(a, f) ==
@@ -565,7 +572,7 @@ RollbackDeleteData(a, f) ==
   /\ present' = present \ {f}
   /\ deleted' = deleted \cup {[f |-> f, by |-> a, i |-> opi[a], at |-> Len(commitLog)]}
   /\ loc' = [loc EXCEPT ![a].files = SelectSeq(@, LAMBDA x : x # f)]
-  /\ UNCHANGED <<hint, metas, metaTime, lists, mans, ftime, markers, mtimeM, clock, lockHolder, rlock, pc, opi, att, faults, armed, commitLog, serial, tsOf, sidOfOp, outcomes, reads>>
+  /\ UNCHANGED <<hint, metas, metaTime, lists, mans, ftime, markers, mtimeM, clock, lockHolder, rlock, pc, opi, att, faults, armed, commitLog, serial, tsOf, sidOfOp, outcomes, reads, initBody>>
 
 RollbackDeleteMarker(a, f) ==
   /\ pc[a] = "rollback"
@@ -582,7 +589,7 @@ ReturnErrLeaving(a) ==
   /\ outcomes' = [outcomes EXCEPT ![a] = Append(@, loc[a].err)]
   /\ pc' = [pc EXCEPT ![a] = "idle"]
   /\ opi' = [opi EXCEPT ![a] = @ + 1]
-  /\ UNCHANGED <<storageVars, clock, lockHolder, rlock, att, loc, faults, armed, commitLog, serial, tsOf, sidOfOp, reads, deleted>>
+  /\ UNCHANGED <<storageVars, clock, lockHolder, rlock, att, loc, faults, armed, commitLog, serial, tsOf, sidOfOp, reads, deleted, initBody>>
 
 ReturnErr(a) ==
   /\ \/ pc[a] = "rollback" /\ loc[a].files = <<>> /\ loc[a].marks = {}
@@ -590,7 +597,7 @@ ReturnErr(a) ==
   /\ outcomes' = [outcomes EXCEPT ![a] = Append(@, loc[a].err)]
   /\ pc' = [pc EXCEPT ![a] = "idle"]
   /\ opi' = [opi EXCEPT ![a] = @ + 1]
-  /\ UNCHANGED <<storageVars, clock, lockHolder, rlock, att, loc, faults, armed, commitLog, serial, tsOf, sidOfOp, reads, deleted>>
+  /\ UNCHANGED <<storageVars, clock, lockHolder, rlock, att, loc, faults, armed, commitLog, serial, tsOf, sidOfOp, reads, deleted, initBody>>
 
 (***************************************************************************)
 (* Faults (C04).  Fault(a, kind) makes the storage call (or, for "async",    *)
@@ -672,7 +679,7 @@ Fault(a, kind) ==
         /\ pc' = [pc EXCEPT ![a] = IF RollsBack(a, kind, TRUE) THEN "rollback" ELSE "raise_keep"]
         /\ loc' = [loc EXCEPT ![a].err = "interrupted"]
         /\ UNCHANGED <<hint, commitLog, serial, tsOf, sidOfOp>>
-  /\ UNCHANGED <<metas, metaTime, lists, mans, present, ftime, markers, mtimeM, clock, lockHolder, rlock, opi, att, armed, outcomes, reads, deleted>>
+  /\ UNCHANGED <<metas, metaTime, lists, mans, present, ftime, markers, mtimeM, clock, lockHolder, rlock, opi, att, armed, outcomes, reads, deleted, initBody>>
 
 \* best-effort steps whose failure is swallowed: a marker that could not be removed stays
 SkipMarker(a, f) ==
@@ -711,7 +718,7 @@ DsResolve(a, name) ==
              /\ pc' = [pc EXCEPT ![a] = "idle"]
              /\ opi' = [opi EXCEPT ![a] = @ + 1]
              /\ UNCHANGED <<loc, att>>
-  /\ UNCHANGED <<storageVars, clock, lockHolder, rlock, faults, armed, commitLog, serial, tsOf, sidOfOp, reads, deleted>>
+  /\ UNCHANGED <<storageVars, clock, lockHolder, rlock, faults, armed, commitLog, serial, tsOf, sidOfOp, reads, deleted, initBody>>
 
 (***************************************************************************)
 (* Reader (Table._get_all_data_files + data reads).                        *)
@@ -770,12 +777,141 @@ RReturn(a) ==
                              err |-> loc[a].err, cur |-> loc[a].body.cur])
   /\ pc' = [pc EXCEPT ![a] = "idle"]
   /\ opi' = [opi EXCEPT ![a] = @ + 1]
-  /\ UNCHANGED <<storageVars, clock, lockHolder, rlock, att, loc, faults, armed, commitLog, serial, tsOf, sidOfOp, outcomes, deleted>>
+  /\ UNCHANGED <<storageVars, clock, lockHolder, rlock, att, loc, faults, armed, commitLog, serial, tsOf, sidOfOp, outcomes, deleted, initBody>>
+
+(***************************************************************************)
+(* Collector (garbage_collector.py:54-270).                                *)
+(* As the code is: metadata is read first (GBegin), every reachable list    *)
+(* and manifest is read (missing => abort, nothing deleted), THEN the       *)
+(* in-flight markers are loaded (GLoadMarkers), then data/ and              *)
+(* metadata/manifests/ are listed and every file that is neither reachable  *)
+(* (from the metadata read at the start) nor protected (markers as loaded)  *)
+(* and is older than the grace period is deleted.  FixGCOrder models the    *)
+(* repaired order: markers are loaded BEFORE the metadata is read.          *)
+(***************************************************************************)
+GraceOf(a) == IF "grace" \in DOMAIN CurOp(a) THEN CurOp(a).grace ELSE Grace
+IsDataFile(f) == f \notin DOMAIN lists /\ f \notin DOMAIN mans
+
+ReachOf(b) ==
+  LET ls == {b.snaps[j].list : j \in 1..Len(b.snaps)}
+      ms == UNION {SeqToSet(lists[l]) : l \in ls \cap DOMAIN lists}
+      ds == UNION {{e.file : e \in mans[m]} : m \in ms \cap DOMAIN mans}
+  IN [lists |-> ls, mans |-> ms, data |-> ds]
+
+FreshMarker(f, now) == mtimeM[f] + MarkerTimeout > now
+
+\* Phases (program counters).  As the code is (FixGCOrder = FALSE):
+\*   idle -GBegin-> g_stampm -GStampM-> g_markers -GLoadMarkers-> g_cutd
+\* repaired order (FixGCOrder = TRUE):
+\*   idle -GStampM-> g_markers -GLoadMarkers-> g_begin -GBegin-> g_cutd
+\* then  g_cutd -GStamp-> g_listd -GList-> g_sweepd -GDelete*- GStamp-> g_listm -GList-> g_sweepm -GDelete*- GReturn
+
+\* refresh() in collect(): the metadata whose snapshots define reachability
+GBegin(a, name) ==
+  /\ Role[a] = "collector"
+  /\ pc[a] = (IF FixGCOrder THEN "g_begin" ELSE "idle")
+  /\ opi[a] <= Len(Prog[a])
+  /\ HandleFree(a)
+  /\ CanResolve(name)
+  /\ name # NoName
+  /\ LET b == metas[name]
+         r == ReachOf(b)
+     IN /\ loc' = [loc EXCEPT ![a] = [(IF FixGCOrder THEN loc[a] ELSE EmptyLoc) EXCEPT
+                                        !.body = b, !.reach = r.lists \cup r.mans \cup r.data, !.from = Len(commitLog)]]
+        \* a reachable list or manifest that is missing makes the run abort before any delete
+        /\ pc' = [pc EXCEPT ![a] = IF (r.lists \cup r.mans) \subseteq present
+                                   THEN (IF FixGCOrder THEN "g_cutd" ELSE "g_stampm") ELSE "g_abort"]
+  /\ UNCHANGED <<storageVars, clock, lockHolder, rlock, opi, att, faults, armed, ghostVars>>
+
+\* cutoff for marker abandonment: time.time() before the marker listing
+GStampM(a, now) ==
+  /\ Role[a] = "collector"
+  /\ pc[a] = (IF FixGCOrder THEN "idle" ELSE "g_stampm")
+  /\ FixGCOrder => opi[a] <= Len(Prog[a])
+  /\ ClockOK(now)
+  /\ clock' = now
+  /\ loc' = [loc EXCEPT ![a] = [(IF FixGCOrder THEN EmptyLoc ELSE loc[a]) EXCEPT !.cutoff = now]]
+  /\ pc' = [pc EXCEPT ![a] = "g_markers"]
+  /\ UNCHANGED <<storageVars, lockHolder, rlock, opi, att, faults, armed, ghostVars>>
+
+\* list metadata/inflight (+ stat and read of every marker): fresh markers protect their target,
+\* abandoned ones are removed (GSweepMarker) and their files fall back to ordinary orphan handling
+GLoadMarkers(a) ==
+  /\ Role[a] = "collector"
+  /\ pc[a] = "g_markers"
+  /\ loc' = [loc EXCEPT ![a].prot = {f \in markers : FreshMarker(f, loc[a].cutoff)},
+                        ![a].mseen = {f \in markers : ~FreshMarker(f, loc[a].cutoff)}]
+  /\ pc' = [pc EXCEPT ![a] = IF FixGCOrder THEN "g_begin" ELSE "g_cutd"]
+  /\ UNCHANGED <<storageVars, clock, lockHolder, rlock, opi, att, faults, armed, ghostVars>>
+
+GSweepMarker(a, f) ==
+  /\ Role[a] = "collector"
+  /\ pc[a] \in {"g_begin", "g_cutd"}
+  /\ f \in loc[a].mseen
+  /\ markers' = markers \ {f}
+  /\ loc' = [loc EXCEPT ![a].mseen = @ \ {f}]
+  /\ UNCHANGED <<hint, metas, metaTime, lists, mans, present, ftime, mtimeM, clock, lockHolder, rlock, pc, opi, att, faults, armed, ghostVars>>
+
+Eligible(a, f) == f \notin loc[a].reach /\ f \notin loc[a].prot /\ f \in present /\ ftime[f] <= loc[a].cutoff
+SweepComplete(a) == \A f \in loc[a].cand : ~Eligible(a, f)
+
+\* cutoff = now - grace, read before a directory is listed; the previous directory's sweep is over
+GStamp(a, now) ==
+  /\ Role[a] = "collector"
+  /\ pc[a] \in {"g_cutd", "g_sweepd"}
+  /\ pc[a] = "g_cutd" => loc[a].mseen = {}
+  /\ pc[a] = "g_sweepd" => SweepComplete(a)
+  /\ ClockOK(now)
+  /\ clock' = now
+  /\ loc' = [loc EXCEPT ![a].cutoff = now - GraceOf(a), ![a].cand = {}]
+  /\ pc' = [pc EXCEPT ![a] = IF pc[a] = "g_cutd" THEN "g_listd" ELSE "g_listm"]
+  /\ UNCHANGED <<storageVars, lockHolder, rlock, opi, att, faults, armed, ghostVars>>
+
+\* listing of data/ (g_listd) or metadata/manifests/ (g_listm)
+GList(a) ==
+  /\ Role[a] = "collector"
+  /\ pc[a] \in {"g_listd", "g_listm"}
+  /\ loc' = [loc EXCEPT ![a].cand = IF pc[a] = "g_listd" THEN {f \in present : IsDataFile(f)}
+                                                         ELSE {f \in present : ~IsDataFile(f)}]
+  /\ pc' = [pc EXCEPT ![a] = IF pc[a] = "g_listd" THEN "g_sweepd" ELSE "g_sweepm"]
+  /\ UNCHANGED <<storageVars, clock, lockHolder, rlock, opi, att, faults, armed, ghostVars>>
+
+\* one listed file is deleted: only if unreachable, unprotected and older than the cutoff
+GDelete(a, f) ==
+  /\ Role[a] = "collector"
+  /\ pc[a] \in {"g_sweepd", "g_sweepm"}
+  /\ f \in loc[a].cand
+  /\ Eligible(a, f)
+  /\ present' = present \ {f}
+  /\ deleted' = deleted \cup {[f |-> f, by |-> a, i |-> opi[a], at |-> loc[a].from]}
+  /\ loc' = [loc EXCEPT ![a].cand = @ \ {f}]
+  /\ UNCHANGED <<hint, metas, metaTime, lists, mans, ftime, markers, mtimeM, clock, lockHolder, rlock, pc, opi, att, faults, armed, commitLog, serial, tsOf, sidOfOp, outcomes, reads, initBody>>
+
+GReturn(a) ==
+  /\ Role[a] = "collector"
+  /\ \/ pc[a] = "g_sweepm" /\ SweepComplete(a)
+     \/ pc[a] = "g_abort"
+  /\ outcomes' = [outcomes EXCEPT ![a] = Append(@, IF pc[a] = "g_abort" THEN "aborted" ELSE "ok")]
+  /\ pc' = [pc EXCEPT ![a] = "idle"]
+  /\ opi' = [opi EXCEPT ![a] = @ + 1]
+  /\ UNCHANGED <<storageVars, clock, lockHolder, rlock, att, loc, faults, armed, commitLog, serial, tsOf, sidOfOp, reads, deleted, initBody>>
+
+CollectorNext(a) ==
+  \/ \E n \in DOMAIN metas : GBegin(a, n)
+  \/ GStampM(a, NowVal) \/ GLoadMarkers(a)
+  \/ \E f \in loc[a].mseen : GSweepMarker(a, f)
+  \/ GStamp(a, NowVal) \/ GList(a)
+  \/ \E f \in loc[a].cand : GDelete(a, f)
+  \/ GReturn(a)
 
 (***************************************************************************)
 (* Next-state relation for model checking: identifiers derived from         *)
 (* (actor, operation index, attempt).                                       *)
 (***************************************************************************)
+\* a data file can only be older than the grace period if it was written before the collection run
+\* began (the run is shorter than the grace period)
+NoCollectionStarted == \A g \in Collectors : pc[g] = "idle" /\ opi[g] = 1
+
 IdBase(a) == Idx[a] * 1000 + opi[a] * 100 + att[a] * 10
 MSid(a)   == IdBase(a) + 1
 MNewFile(a) == IdBase(a) + 2 + Cardinality(loc[a].marks \ SeqToSet(AppendFiles(a)))   \* k-th manifest/list of this attempt
@@ -783,16 +919,16 @@ MName(a)  == [v |-> loc[a].nextVer, u |-> IdBase(a)]
 
 CommitterNext(a) ==
   \/ Begin(a)
-  \/ \E f \in 1..99 : WriteMarkerD(a, f) \/ WriteData(a, f)
+  \/ \E f \in 1..99 : WriteMarkerD(a, f) \/ WriteData(a, f, IF OldFiles /\ NoCollectionStarted THEN OldTime ELSE clock)
   \/ CommitStart(a)
   \/ \E n \in DOMAIN metas : ReadBase(a, n)
   \/ ReadBaseList(a)
   \/ ReadManifest(a)
   \/ WriteMarkerM(a, MNewFile(a))
-  \/ RewriteManifest(a, loc[a].pend)
+  \/ RewriteManifest(a, loc[a].pend, clock)
   \/ CheckData(a)
-  \/ WriteManifest(a, loc[a].pend, MSid(a))
-  \/ WriteList(a, loc[a].pend, MSid(a))
+  \/ WriteManifest(a, loc[a].pend, MSid(a), clock)
+  \/ WriteList(a, loc[a].pend, MSid(a), clock)
   \/ StampSnapshot(a, NowVal)
   \/ TLock(a) \/ DLock(a)
   \/ \E n \in DOMAIN metas \cup {NoName} : Validate(a, n)
@@ -817,6 +953,7 @@ ReaderNext(a) ==
 Next ==
   \/ \E a \in Committers : CommitterNext(a)
   \/ \E a \in Readers : ReaderNext(a)
+  \/ \E a \in Collectors : CollectorNext(a)
   \/ Tick
 
 Spec == Init /\ [][Next]_vars
@@ -870,7 +1007,7 @@ FlipReplacesValidated ==
 
 \* C02: a read returns the file set of one snapshot that was current between its start and end
 CommittedCurFiles(k) ==   \* files of the current snapshot after k commits (k = 0: initial table)
-  LET b == IF k = 0 THEN metas[InitName(InitSnaps)] ELSE metas[commitLog[k].name] IN
+  LET b == IF k = 0 THEN initBody ELSE metas[commitLog[k].name] IN
   IF b.cur = 0 THEN {} ELSE FilesOfList(SnapOf(b, b.cur).list)
 ReadIsSnapshot ==
   \A i \in 1..Len(reads) : reads[i].err = "none" =>
@@ -885,6 +1022,18 @@ ReadsMonotone ==
 
 \* uncommitted files of a finished transaction never stay reachable / committed files are never deleted
 NoLiveDelete == \A d \in deleted : d.f \notin Reachable(CurBody)
+
+\* C05/C06: what a collector deleted is not referenced by any metadata version that was ever committed
+\* (before, during or after the run) - evaluated in every state against the whole commit log
+\* the metadata version that was current after k commits (k = 0: the initial table)
+BodyAfter(k) == IF k = 0 THEN initBody ELSE metas[commitLog[k].name]
+OnlyOrphansDeleted ==
+  \A d \in deleted : d.by \in Collectors =>
+     \A k \in d.at..Len(commitLog) : LET r == ReachOf(BodyAfter(k)) IN d.f \notin (r.lists \cup r.mans \cup r.data)
+\* every file written (and marker-registered) by a transaction that has not finished still exists
+InflightPresent ==
+  \A a \in Committers : pc[a] \notin {"idle", "rollback", "raise_keep"} =>
+     (SeqToSet(loc[a].files) \cup loc[a].newFiles) \subseteq present
 
 \* C04: an ambiguous outcome deletes nothing the transaction wrote
 NoDeleteOnAmbiguous ==
